@@ -8,7 +8,7 @@ PROP = {
     "allowed_axioms": [],
     "harness": "c17",
     "modelrun": {"name": "c17", "extracted": ["c17_model"], "driver": "ocaml/c17/c17_run.ml"},
-    "tiers": {"quick": {"cases": 10000}, "thorough": {"cases": 150000}},
+    "tiers": {"quick": {"cases": 10000}, "thorough": {"cases": 100000}},
     "search_cases": 40000,
     "rule": "message structures built the way the update sender / FSM build them: packet.PathAttributes on generated "
             "paths (AS paths up to 600 ASNs per segment and several segments, empty segments, 4-byte ASNs, up to 300 "
